@@ -148,6 +148,48 @@ def limit_over_outer_join(q):
     return bool(hit)
 
 
+def limit_over_distinct_aggregate(q):
+    """Some query level with LIMIT has an aggregate function with DISTINCT somewhere beneath it."""
+    hit = []
+
+    def has_distinct_agg(qq):
+        found = []
+
+        def es(x):
+            if x.k == "agg" and x.a[2]:
+                found.append(1)
+        _walk_query(qq, es)
+        return bool(found)
+
+    def vq(qq):
+        if qq.limit is not None and has_distinct_agg(qq):
+            hit.append(1)
+        for _, cq, _m in qq.ctes:
+            vq(cq)
+        b = qq.body
+        if isinstance(b, Sel):
+            vf(b.frm)
+        else:
+            vq(b[2])
+            vq(b[3])
+
+    def vf(f):
+        if f is None:
+            return
+        if f.k == "join":
+            vf(f.left)
+            vf(f.right)
+        elif f.k in ("sub", "lateral"):
+            vq(f.q)
+    vq(q)
+
+    def es2(x):
+        if x.k == "subq":
+            vq(x.a[1])
+    _walk_query(q, es2)
+    return bool(hit)
+
+
 def cte_joined_with_itself(q):
     """Some FROM clause (through joins and derived tables, not expression subqueries) scans one CTE twice."""
     hit = []
@@ -195,6 +237,8 @@ def query_avoid_reasons(q, partitions=2):
         reasons.add("optimizer-cte-self-join")
     if partitions > 1 and limit_over_outer_join(q):
         reasons.add("left-join-limit-hang")
+    if partitions > 1 and limit_over_distinct_aggregate(q):
+        reasons.add("distinct-aggregate-union-limit-hang")
 
     def n_from_items(f):
         if f is None:
